@@ -83,6 +83,7 @@ class Interp:
         self.captured = []  # frames captured by the fills currently being rendered (between frames + loop copies)
         self.last_read = None
         self.in_defaultref = 0
+        self.render_stack = []  # instances whose template is being evaluated (rendered structure)
         self.elem_roots = {}  # uid -> [instance numbers]
         self.elem_occ = []  # (uid, [instance numbers]) per rendered element, document order
         self.provider_count = 0
@@ -274,7 +275,12 @@ class Interp:
         else:
             tenv = env + (data_fr,)
         inst.tenv = tenv
-        res = self.eval(cls["template"], tenv, inst, provs, top | {inst.no}, depth + 1, False, slot_stack)
+        inst.dyn_ancestors = [i.cname for i in self.render_stack]
+        self.render_stack.append(inst)
+        try:
+            res = self.eval(cls["template"], tenv, inst, provs, top | {inst.no}, depth + 1, False, slot_stack)
+        finally:
+            self.render_stack.pop()
         if "page_level_provider_released_by_first_sibling" in self.sw and depth == 0 and owner is None:
             # a page-level component finished: every page-level provider it (or its descendants) referenced is released
             for key, (pno, vals, page_level) in provs.items():
